@@ -478,9 +478,34 @@ func (vc *VC) vacuity(dir string) string {
 		}
 		return "VACUOUS: precondition and assumptions exclude every exit (" + r.solver + ")"
 	case "sat":
+		if v := vc.loopsReachable(dir); v != "" {
+			return v
+		}
 		return "sat: some exit is reachable under the precondition"
 	}
+	if v := vc.loopsReachable(dir); v != "" {
+		return v
+	}
 	return "inconclusive (" + r.status + "): not shown contradictory within 4s"
+}
+
+// loopsReachable: every loop of the function must be reachable under the assumptions (a contradictory assumption half-way --
+// e.g. a trusted callee contract that forces an early return -- leaves an exit reachable but makes everything behind it
+// vacuous). Returns a VACUOUS verdict or "".
+func (vc *VC) loopsReachable(dir string) string {
+	for i, g := range vc.loopGuards {
+		f2 := filepath.Join(dir, fmt.Sprintf("vacuity_%s_loop%d.smt2", smtName(vc.short), i))
+		// the quantifier-free part of the context is enough to find a contradiction of this kind, and decides fast
+		// (unsat of a subset of the assumptions implies unsat of all of them)
+		os.WriteFile(f2, []byte(vc.satScriptQF(len(vc.cmds), g)), 0o644)
+		rl := runSolver(solvers[0], f2, 3)
+		if rl.status == "unsat" {
+			if r2 := runSolver(solvers[2], f2, 5); r2.status != "sat" {
+				return "VACUOUS: " + vc.loopGuardNames[i] + " is unreachable under the precondition and the assumed contracts (" + rl.solver + "); if that is intended give the loop the invariant `false`"
+			}
+		}
+	}
+	return ""
 }
 
 // writeReplay records a failed obligation and tries to obtain a concrete failing
